@@ -119,7 +119,7 @@ func runC17(c *Ctx) {
 				okSrc := len(whole) == 1
 				if okSrc {
 					t := abRg.Term(site, whole[0])
-					okSrc = t.Op == "index" && strings.Contains(t.Args[1].String(), "µ") && t.Args[0].Has(func(x *Term) bool { return x.Op == "call" && x.Fn != nil && x.Fn.Name() == "propose" })
+					okSrc = t.Op == "index" && strings.Contains(t.Args[1].String(), "µ") && t.Args[0].Has(isRaftResponse)
 				}
 				if !okSrc {
 					why = append(why, "the copy sent is not element i of the FSM response")
@@ -153,20 +153,28 @@ func runC17(c *Ctx) {
 	ds := p.MustMethod("server", "Sender", "doSign")
 	{
 		var why []string
+		// the snapshot parameter by type (the signer may be a method of the Sender or a function with explicit dependencies)
+		snapI := -1
+		for i, par := range ds.Params {
+			if namedIs(par.Type(), "protocol", "Snapshot") {
+				snapI = i
+			}
+		}
+		hasSenderRecv := len(ds.Params) > 0 && namedIs(ds.Params[0].Type(), "server", "Sender")
 		calls := callsIn(ds, func(k *ssa.CallCommon) bool { return k.IsInvoke() && k.Method.Name() == "Sign" })
 		if len(calls) != 1 {
 			why = append(why, fmt.Sprintf("%d Sign calls", len(calls)))
 		} else {
 			msg := p.TermOf(callCommon(calls[0]).Args[0])
-			whole := msg.Op == "call" && msg.Fn != nil && strings.HasPrefix(msg.Fn.Name(), "Sprint") && msg.Has(func(x *Term) bool { return x.Op == "list" && len(x.Args) == 1 && x.Args[0].IsParam(ds, 1) })
+			whole := msg.Op == "call" && msg.Fn != nil && strings.HasPrefix(msg.Fn.Name(), "Sprint") && msg.Has(func(x *Term) bool { return x.Op == "list" && len(x.Args) == 1 && x.Args[0].IsParam(ds, snapI) })
 			if !whole {
 				// any rendering of the whole snapshot value (not of selected fields)
-				whole = msg.Has(func(x *Term) bool { return x.IsParam(ds, 1) }) && !msg.Has(func(x *Term) bool { return x.Op == "field" && x.Args[0].IsParam(ds, 1) })
+				whole = msg.Has(func(x *Term) bool { return x.IsParam(ds, snapI) }) && !msg.Has(func(x *Term) bool { return x.Op == "field" && x.Args[0].IsParam(ds, snapI) })
 			}
 			if !whole {
 				why = append(why, "the signed bytes are "+msg.String()+", not a rendering of the whole snapshot")
 			}
-			if msg.Has(func(x *Term) bool { return x.Op == "field" && x.Args[0].IsParam(ds, 0) && x.Name != "signer" }) {
+			if hasSenderRecv && msg.Has(func(x *Term) bool { return x.Op == "field" && x.Args[0].IsParam(ds, 0) && x.Name != "signer" }) {
 				why = append(why, "the signed bytes pass through a field of the Sender ("+msg.String()+"): the batchers run concurrently on copies that share it")
 			}
 			// pairing
@@ -175,7 +183,7 @@ func runC17(c *Ctx) {
 				if al, isAl := rt[0].V.(*ssa.Alloc); isAl {
 					_, bf := p.storesTo(al)
 					if len(bf["Snapshot"]) == 1 && len(bf["Signature"]) == 1 {
-						if p.TermOf(bf["Snapshot"][0]).IsParam(ds, 1) && p.TermOf(bf["Signature"][0]).Has(func(x *Term) bool { return x.V == calls[0].(ssa.Value) }) {
+						if p.TermOf(bf["Snapshot"][0]).IsParam(ds, snapI) && p.TermOf(bf["Signature"][0]).Has(func(x *Term) bool { return x.V == calls[0].(ssa.Value) }) {
 							ok = true
 						}
 					}
